@@ -59,7 +59,7 @@ impl XYZFile {
         for atom in molecule.atoms().iter() {
             Self::write_line(
                 format!(
-                    "{an:<3}{x:11.6}{y:11.6}{z:11.6}",
+                    "{an:<3} {x:11.6} {y:11.6} {z:11.6}",
                     an = atom.atomic_number.to_atomic_symbol(),
                     x = atom.coordinate.x,
                     y = atom.coordinate.y,
